@@ -776,7 +776,7 @@ class FnTranslator:
     def has_exit(stmts) -> bool:
         for s in stmts:
             for n in ast.walk(s):
-                if isinstance(n, (ast.Return, ast.Break, ast.Continue)):
+                if isinstance(n, (ast.Return, ast.Break, ast.Continue, ast.Raise)):
                     return True
         return False
 
@@ -997,6 +997,17 @@ class FnTranslator:
         if s.value is None or (isinstance(s.value, ast.Constant) and s.value.value is None):
             return ctx.ret(None, None, env)
         return self.expr(s.value, env, lambda c, t: ctx.ret(c, t, env))
+
+    def s_Raise(self, s, rest, env, ctx):
+        exc = s.exc
+        name = None
+        if isinstance(exc, ast.Call) and isinstance(exc.func, ast.Name):
+            name = exc.func.id
+        elif isinstance(exc, ast.Name):
+            name = exc.id
+        if s.cause is not None or name not in ("ValueError", "IndexError", "AssertionError", "ZeroDivisionError"):
+            self.bad(s, "raise of anything but ValueError / IndexError / AssertionError / ZeroDivisionError")
+        return Term(f"PyErr {name}", False)        # the message is not modelled
 
     def s_Break(self, s, rest, env, ctx):
         if ctx.brk is None:
@@ -1560,6 +1571,96 @@ CLIENTS["C10"] = Client(
             expr_matchers=[(is_clone, clone_id), (is_bool_any, bool_any), (is_times_gamma_pow, times_gamma_pow)],
             stmt_shapes=[(stmt_like(t), skip_stmt) for t in C10_INFO_SKIPPED],
             theorem="C10_translated_n_step_info_is_model")])])
+
+
+# ---- C15: maybe_add_batch_dim ------------------------------------------------------------------------
+TN_T = ("opaque", "Tn")          # an observation array (numpy) or tensor (torch)
+
+
+def call_shape(fn_src=None, method=None, nargs=None, star_last=False):
+    """matcher for  <fn_src>(args)  or  <obj>.<method>(args)  with nargs arguments (the last one starred if star_last)"""
+    def m(e, env):
+        if not isinstance(e, ast.Call) or e.keywords or len(e.args) != nargs:
+            return False
+        if star_last != isinstance(e.args[-1], ast.Starred):
+            return False
+        if any(isinstance(a, ast.Starred) for a in e.args[:-1]):
+            return False
+        if fn_src is not None:
+            return ast.unparse(e.func) == fn_src
+        return isinstance(e.func, ast.Attribute) and e.func.attr == method
+    return m
+
+
+def c15_obj(tr, node, env, k, coq, want_args, monadic=False, result=TN_T):
+    """<coq> applied to the translated arguments, whose types must be want_args"""
+    def done(vals):
+        if [t for _, t in vals] != want_args:
+            tr.bad(node, f"arguments of types {[t for _, t in vals]}, the shape table expects {want_args}")
+        code = f"{coq} " + " ".join(par(c) for c, _ in vals)
+        return tr.hoist(node, code, result, k) if monadic else k(code, result)
+    return done
+
+
+def c15_expand_dims(tr, e, env, k):           # np.expand_dims(obs, 0)
+    if not (isinstance(e.args[1], ast.Constant) and e.args[1].value == 0):
+        tr.bad(e, "np.expand_dims on an axis other than 0")
+    return tr.exprs([e.args[0]], env, c15_obj(tr, e, env, k, "np_expand_dims0", [TN_T]))
+
+
+def c15_unsqueeze(tr, e, env, k):             # obs.unsqueeze(0)
+    if not (isinstance(e.args[0], ast.Constant) and e.args[0].value == 0):
+        tr.bad(e, "unsqueeze on an axis other than 0")
+    return tr.exprs([e.func.value], env, c15_obj(tr, e, env, k, "t_unsqueeze0", [TN_T]))
+
+
+def c15_rows(coq):                             # obs.reshape(-1, *space_shape) / obs.view(-1, *space_shape)
+    def h(tr, e, env, k):
+        if ast.unparse(e.args[0]) != "-1":
+            tr.bad(e, "reshape/view whose first extent is not -1")
+        return tr.exprs([e.func.value, e.args[1].value], env, c15_obj(tr, e, env, k, coq, [TN_T, ("list", "Z")], True))
+    return h
+
+
+def c15_isinstance_np(tr, e, env, k):         # isinstance(obs, np.ndarray)
+    if ast.unparse(e.args[1]) != "np.ndarray":
+        tr.bad(e, "isinstance against a class other than np.ndarray")
+    return tr.exprs([e.args[0]], env, c15_obj(tr, e, env, k, "is_ndarray", [TN_T], result="bool"))
+
+
+def is_obj_shape(e, env):
+    return (isinstance(e, ast.Attribute) and e.attr == "shape" and isinstance(e.value, ast.Name)
+            and e.value.id in env and env[e.value.id][1] == TN_T)
+
+
+def obj_shape(tr, e, env, k):
+    return k(f"tshape {env[e.value.id][0]}", ("list", "Z"))
+
+
+CLIENTS["C15"] = Client(
+    pid="C15",
+    imports="From Coq Require Import List ZArith Bool.\nImport ListNotations.\nFrom AgileV Require Import TR.PyLib.",
+    equiv="coq/gen/C15_equiv.v",
+    units=[Unit(
+        file="agilerl/utils/algo_utils.py", section="GenObsShape",
+        context=("Context {Tn : Type}.\n"
+                 "Variable tshape : Tn -> list Z.                       (* obs.shape *)\n"
+                 "Variable is_ndarray : Tn -> bool.                     (* isinstance(obs, np.ndarray) *)\n"
+                 "Variable np_expand_dims0 : Tn -> Tn.                  (* np.expand_dims(obs, 0) *)\n"
+                 "Variable t_unsqueeze0 : Tn -> Tn.                     (* obs.unsqueeze(0) *)\n"
+                 "Variable np_reshape_rows : Tn -> list Z -> res Tn.    (* obs.reshape(-1, *shape) *)\n"
+                 "Variable t_view_rows : Tn -> list Z -> res Tn.        (* obs.view(-1, *shape) *)"),
+        carrier=Carrier(T="unit"), object_types=[TN_T],
+        functions=[FnSpec(
+            cls=None, name="maybe_add_batch_dim", coq="maybe_add_batch_dim", returns=TN_T,
+            params={"obs": TN_T, "space_shape": ("list", "Z")},
+            expr_matchers=[(is_obj_shape, obj_shape),
+                           (call_shape(fn_src="np.expand_dims", nargs=2), c15_expand_dims),
+                           (call_shape(method="unsqueeze", nargs=1), c15_unsqueeze),
+                           (call_shape(method="reshape", nargs=2, star_last=True), c15_rows("np_reshape_rows")),
+                           (call_shape(method="view", nargs=2, star_last=True), c15_rows("t_view_rows")),
+                           (call_shape(fn_src="isinstance", nargs=2), c15_isinstance_np)],
+            theorem="C15_translated_maybe_add_batch_dim_is_model")])])
 
 
 def translate_pid(pid: str, repo: Path):
